@@ -139,7 +139,7 @@ func runCheck(o *checkOpts) int {
 		sort.Strings(keys)
 		for _, k := range keys {
 			c := cs.Funcs[k]
-			if strings.HasPrefix(k, "funcval ") {
+			if strings.HasPrefix(k, "funcval ") || strings.HasPrefix(k, "extern ") {
 				continue
 			}
 			if !hasProp(c.Props, o.prop) {
